@@ -106,6 +106,8 @@ def py_json(j):
             return Unserialisable()
         if '__live__' in j:
             return live_value(j['__live__'], [py_json(v) for v in j['items']])
+        if '__tuple__' in j:
+            return tuple(py_json(v) for v in j['__tuple__'])      # JSON writes a tuple as an array
         return {py_key(k): py_json(v) for k, v in j.items()}
     if isinstance(j, list):
         return [py_json(v) for v in j]
@@ -148,7 +150,7 @@ def json_sx(j):
         return '(f %s)' % H(repr(j).encode('ascii'))
     if isinstance(j, str):
         return '(s %s)' % T(j)
-    if isinstance(j, list):
+    if isinstance(j, (list, tuple)):
         return '(l' + ''.join(' ' + json_sx(x) for x in j) + ')'
     if isinstance(j, dict):
         if not all(isinstance(k, str) for k in j):
